@@ -126,6 +126,15 @@ func (p *Processor) processTxnData(d TxnData) {
 
 	h.Harvest.commandsProcessed++
 	h.App.LastActivity = time.Now()
+
+	// The transaction is decoded here, on the processor goroutine. A corrupt
+	// flatbuffer from one agent must not take the whole daemon (and every
+	// buffered harvest) down with it: drop the offending message instead.
+	defer func() {
+		if err := recover(); err != nil {
+			log.Errorf("dropping malformed transaction data for run id %s: %v", d.ID, err)
+		}
+	}()
 	d.Sample.AggregateInto(h.Harvest)
 }
 
